@@ -414,8 +414,17 @@ class Twin:
         self.tag_target[t.id] = tid
         self._store([t], storage)
 
+    def _tick(self):
+        """The packed-refs cache identifies a file by (inode, size, mtime_ns); file timestamps advance with the
+        kernel tick.  The property's idealisation is that two different files never share an identity, so
+        rewrites by 'another process' are kept at least one tick apart."""
+        import time
+        time.sleep(0.012)
+
     def op_ref(self, refname, target, actor):
         rn = refname.encode() if isinstance(refname, str) else refname
+        if actor != "dulwich":
+            self._tick()
         self.refnames.add(rn)
         val = self.ids[target] if target is not None else None
         for s in self.sides:
@@ -513,6 +522,7 @@ class Twin:
                         write_bitmap(p._bitmap_path, bm)
                         p._bitmap = None
         elif kind == "packed-refs":
+            self._tick()
             if writer == "git":
                 _git(A.path, "pack-refs", *(["--all"] if variant == "all" else []))
             elif writer == "other":
@@ -1099,11 +1109,13 @@ def classify(tw: Twin, abl: Ablation, key: str, aN, aA, ansN: dict, ansA: dict):
     causes = set()
     for kind in resp:
         if kind == "commit-graph":
+            only = q[1].encode() if q[0] == "parents" else None
+            found = commit_graph_causes(tw, abl.ll, only)
             if aN == ["EXC", "KeyError"]:
-                causes |= absent_commit_causes(tw, abl.ll, ansN) or {None}
-            else:
-                only = q[1].encode() if q[0] == "parents" else None
-                causes |= commit_graph_causes(tw, abl.ll, only) or {None}
+                # without the graph the walk touches a commit the store no longer has; with it either that commit
+                # is answered from the graph, or the walk ends early on a truncated parent list
+                found |= absent_commit_causes(tw, abl.ll, ansN)
+            causes |= found or {None}
         elif kind == "midx":
             causes |= midx_causes(tw, q, ansN, ansA)
         elif kind == "bitmap":
